@@ -349,6 +349,39 @@ fn case(bytes: &[u8], col: &mut Collector) -> Result<(), Failure> {
                 }
                 col.class("point:multiples-beyond-r");
             }
+            // sums of multiples through the curve's multi-scalar routine agree with term-by-term
+            // multiplication, also for the scalars 0, ±1, ±2 and r − small
+            if ch.chance(80) {
+                use ark_ec::VariableBaseMSM;
+                let n = 1 + ch.below(6);
+                let pts: Vec<ZorroG> = (0..n).map(|i| if i == 0 { p } else { ZorroG::generator().mul_bigint([3 + i as u64 + ch.byte() as u64]).into_affine() }).collect();
+                let scs: Vec<Fr> = (0..n)
+                    .map(|_| match ch.below(8) {
+                        0 => Fr::zero(),
+                        1 => Fr::one(),
+                        2 => -Fr::one(),
+                        3 => Fr::from(2u64),
+                        4 => -Fr::from(2u64),
+                        5 => -Fr::from(1 + ch.byte() as u64),
+                        _ => ScalarSpec::gen(&mut ch).to_f(),
+                    })
+                    .collect();
+                let got = <ark_bulletproofs::curve::zorro::G1Projective as VariableBaseMSM>::msm(&pts, &scs).map(|g| g.into_affine());
+                let mut want = ark_bulletproofs::curve::zorro::G1Projective::zero();
+                for (pt, sc) in pts.iter().zip(scs.iter()) {
+                    // own affine arithmetic on one term, compiled single multiplication on the others
+                    want += pt.mul_bigint(sc.into_bigint());
+                }
+                if got.ok() != Some(want.into_affine()) {
+                    return Err(Failure::new("C14:msm", "a multi-scalar multiplication differs from the sum of the single multiples (scalars incl. 0, ±1, ±2, −small)".to_string(), json!({"x": px.to_string(), "scalars": scs.iter().map(|s| big(s).to_string()).collect::<Vec<_>>()})));
+                }
+                // (r − 1)·P = −P through the same routine
+                let m1 = <ark_bulletproofs::curve::zorro::G1Projective as VariableBaseMSM>::msm(&[p], &[-Fr::one()]).map(|g| g.into_affine());
+                if m1.ok() != Some((-p.into_group()).into_affine()) {
+                    return Err(Failure::new("C14:msm", "(r − 1)·P through the multi-scalar routine is not −P: the group order is not r there".to_string(), json!({"x": px.to_string()})));
+                }
+                col.class("point:msm");
+            }
             // what is admitted as a group element must be on the curve: (x, y+1) in either encoding
             // mode is refused by the validating decoders
             if ch.chance(90) {
